@@ -327,7 +327,7 @@ func Mix(r *core.Rng, p MixParams) *prog.Program {
 	if len(p.Buckets) > 0 {
 		g.Bkts = p.Buckets
 	}
-	kp := KVParams{TTL: p.KVTTL, Deletes: true, NoLimitOnly: true, PSearch: true}
+	kp := KVParams{TTL: p.KVTTL, Deletes: true, NoLimitOnly: true, PSearch: true, Boundary: p.Boundary}
 	ds := subset(r, p.DS, 1, len(p.DS))
 	ntx := r.Range(p.MinTx, p.MaxTx)
 	for i := 0; i < ntx; i++ {
